@@ -18,7 +18,7 @@ msa_sort alphabet task bisectingKmeans sequence_distance bpm euclidean_dist pick
 aln_run aln_mem aln_setup aln_controller aln_seqseq aln_seqprofile aln_profileprofile weave_alignment""".split()
 
 WRAPS = ['fopen', 'stat', 'isatty', 'exit', 'time', 'clock', 'times', 'fileno', 'open', 'read', 'write', 'lseek', 'close', 'fstat', 'access',
-         'unlink', 'remove', 'rename', 'lstat',
+         'unlink', 'remove', 'rename', 'lstat', 'mmap', 'pread', 'fdopen',
          'malloc', 'calloc', 'realloc', 'free', 'posix_memalign', 'aligned_alloc']
 
 SIM_SRC = ['driver.c', 'simomp.c', 'simfs.c', 'simclock.c', 'simalloc.c', 'hooks.c']
